@@ -414,6 +414,38 @@ impl<const N: usize> std::io::Write for FmtSink<N> {
     }
 }
 
+/// Door for the writer harness (the metadata enums are private to parser.rs): classify one header line of a file patch.
+/// Returns (code, value, rest_len).  code: 0 OldMode 1 NewMode 2 DeletedFileMode 3 NewFileMode 4 RenameFrom 5 RenameTo 6 Index
+/// 7 GitDiffSeparator 8 MinusFilename 9 PlusFilename 10 other accepted metadata, 100 rejected.  value: the mode; for name
+/// lines the first byte of the (first) name, 0 for /dev/null.
+pub fn verif_classify_line(line: &[u8]) -> (u8, u32, usize) {
+    fn nm(f: &Filename) -> u32 {
+        use std::os::unix::ffi::OsStrExt;
+        match f { Filename::DevNull => 0, Filename::Real(p) => { let b = p.as_os_str().as_bytes(); if b.is_empty() { 1 } else { b[0] as u32 } } }
+    }
+    match parse_git_metadata_line(line) {
+        Ok((rest, v)) => {
+            let r = match v {
+                GitMetadataLine::OldMode(m) => (0, m), GitMetadataLine::NewMode(m) => (1, m), GitMetadataLine::DeletedFileMode(m) => (2, m),
+                GitMetadataLine::NewFileMode(m) => (3, m), GitMetadataLine::RenameFrom => (4, 0), GitMetadataLine::RenameTo => (5, 0),
+                GitMetadataLine::Index(a, b, _) => (6, (a.len() * 100 + b.len()) as u32), _ => (10, 0),
+            };
+            return (r.0, r.1, rest.len());
+        }
+        Err(e) => { std::mem::forget(e); }
+    }
+    match parse_metadata_line(line) {
+        Ok((rest, v)) => {
+            let r = match &v {
+                MetadataLine::GitDiffSeparator(a, _) => (7, nm(a)), MetadataLine::MinusFilename(a) => (8, nm(a)), MetadataLine::PlusFilename(a) => (9, nm(a)),
+            };
+            std::mem::forget(v);
+            (r.0, r.1, rest.len())
+        }
+        Err(e) => { std::mem::forget(e); (100, 0, 0) }
+    }
+}
+
 fn alpha(x: u8) -> u8 { match x & 3 { 0 => b'a', 1 => b'b', 2 => b'c', _ => b'\\' } }
 
 /// (i) header: start lines and side lengths from the matrix (lines are concrete dummies)
